@@ -14,6 +14,7 @@ pub(crate) mod h_coll;
 pub(crate) mod h_grow;
 pub(crate) mod h_coll2;
 pub(crate) mod h_selftest;
+pub(crate) mod h_stub;
 
 /// Concrete playback tests of failed obligations (generated on demand by vf/run_kani.py;
 /// the file is empty unless a violation is being replayed).
